@@ -117,7 +117,8 @@ Proof.
     + unfold vnat, vnum. cbn [vjs_reorder]. rewrite (as_num_num O L).
       destruct (Z.eqb_spec (Z.of_nat s) (-1)); [lia|].
       unfold vjs_index. rewrite z_index_of_nat. reflexivity.
-    + unfold vnat, vnum. cbn [vjs_reorder vas_num]. rewrite !(as_num_num O L), !z_index_of_nat. reflexivity.
+    + unfold vnat, vnum. cbn [vjs_reorder vas_num]. rewrite !(as_num_num O L), run_indices_nat, map_map.
+      f_equal. apply map_ext. intros i. unfold vjs_index. rewrite z_index_of_nat. reflexivity.
 Qed.
 
 Lemma vjs_reorder_cons p i acc :
